@@ -147,6 +147,10 @@ theorem filter_ne_some (q : Nat) (xs : List Nat) (h : q ∉ xs) :
   have : x ≠ q := fun h' => h (h' ▸ hx)
   simpa using this
 
+/-- a leaf without unreadable cells -/
+theorem all_isSome_map (xs : List Nat) : (xs.map some).all Option.isSome = true := by
+  simp
+
 /-- the write that deletes the old entry of the key (if there is one) -/
 def delEffs (key pid q : Nat) (xs : List Nat) : List PEff :=
   if (rmNat q xs).length < xs.length then [.leaf key 0 ((rmNat q xs).map some) false pid] else []
@@ -160,9 +164,9 @@ theorem sinkOneA_eq (cfg : Cfg) (ps : PS) (t : TreeImg) (q : Nat) (xs : List Nat
   have hl := h.leaves
   unfold sinkOneA
   by_cases hd : (rmNat q xs).length < xs.length
-  · simp only [hl, List.length_singleton, Nat.sub_self, List.getD_cons_zero, filter_map_some, List.length_map, hcap, hd, if_true,
+  · simp only [hl, List.length_singleton, Nat.sub_self, List.getD_cons_zero, all_isSome_map, filter_map_some, List.length_map, hcap, hd, if_true,
       insertSorted_map, setLeaf, sunk, sinkXs, insR, delEffs, List.reverse_singleton, List.singleton_append, List.map_cons, List.map_nil]
-  · simp only [hl, List.length_singleton, Nat.sub_self, List.getD_cons_zero, filter_map_some, List.length_map, hcap, hd, if_true, if_false,
+  · simp only [hl, List.length_singleton, Nat.sub_self, List.getD_cons_zero, all_isSome_map, filter_map_some, List.length_map, hcap, hd, if_true, if_false,
       List.append_nil, insertSorted_map, setLeaf, sunk, sinkXs, insR, delEffs, List.reverse_singleton, List.singleton_append, List.map_nil]
 
 def sinkEffs (key pid : Nat) : List Nat → List Nat → List PEff
